@@ -8,7 +8,27 @@ import (
 	"strings"
 )
 
-func init() { register("g08", genG08) }
+func init() { register("g08", genG08Both) }
+
+// genG08Both extracts the tables from the sources as they are; only if a shape is not found it tries again with the local
+// names alpha-normalised (g08_norm.go), so that merely renamed locals are not a false alarm, while the normalisation
+// (which goes by declaration order) cannot itself break a source that matches literally.
+func genG08Both(repo string, w *Out) error {
+	g08UseNorm = false
+	w1 := &Out{}
+	err1 := genG08(repo, w1)
+	if err1 == nil {
+		w.sb.WriteString(w1.String())
+		return nil
+	}
+	g08UseNorm = true
+	w2 := &Out{}
+	if err2 := genG08(repo, w2); err2 == nil {
+		w.sb.WriteString(w2.String())
+		return nil
+	}
+	return err1
+}
 
 // g08m matches re against text and returns the numeric sub-matches.
 func g08m(what, text, re string) ([]uint64, error) {
